@@ -19,6 +19,7 @@ import (
 	"verif/harness/fake"
 	"verif/harness/feat"
 	"verif/harness/gwx"
+	"verif/harness/introspect"
 	"verif/harness/opgen"
 	"verif/harness/refexec"
 	"verif/harness/world"
@@ -76,7 +77,7 @@ func runExec(c *ExecCase) (*execOutcome, *ev.Failure) {
 	if err != nil {
 		return nil, ev.Failf("harness", "union schema: %v", err)
 	}
-	ref := &refexec.Executor{Schema: union, Store: c.World.Store}
+	ref := &refexec.Executor{Schema: union, Store: c.World.Store, Meta: metaHook(union)}
 	doc, verrs := ref.Parse(c.Op.Query)
 	if verrs != nil {
 		out.Skip = "op-invalid-for-union: " + verrs.Error()
@@ -168,6 +169,17 @@ func trunc(s string, n int) string {
 		return s[:n] + "…"
 	}
 	return s
+}
+
+// metaHook answers introspection root fields inside an ordinary operation with the harness's specification resolver
+func metaHook(schema *ast.Schema) func(*ast.Field, ast.SelectionSet, map[string]interface{}) interface{} {
+	return func(f *ast.Field, subs ast.SelectionSet, vars map[string]interface{}) interface{} {
+		cp := *f
+		cp.Alias = "x"
+		cp.SelectionSet = subs
+		r := &introspect.Resolver{Schema: schema, Vars: vars}
+		return r.ResolveRoot(ast.SelectionSet{&cp}, "Query")["x"]
+	}
 }
 
 func opUsesNodeRoot(c *ExecCase) bool {
@@ -377,6 +389,9 @@ func isCensus() bool { return os.Getenv("VERIF_CENSUS") != "" }
 // opOverride lets a property adjust the operation generator (depth etc.)
 var opOverride func(*opgen.Options)
 
+// mixIntrospection: generated queries may carry a simple introspection root field beside ordinary ones (set by the tests whose oracle covers it)
+var mixIntrospection bool
+
 // storeOverride lets a property adjust the data generator (list lengths etc.)
 var storeOverride func(*world.StoreOptions)
 
@@ -419,6 +434,7 @@ func genExecCaseOpt(t *rapid.T, rec *ev.Recorder, opType ast.Operation, saturate
 	}
 	o.IDs = entityIDs(w.Store)
 	o.MaxDepth = rapid.SampledFrom([]int{2, 3, 3, 4, 5, 6}).Draw(t, "maxdepth")
+	o.MixIntrospection = mixIntrospection
 	if opOverride != nil {
 		opOverride(&o)
 	}
@@ -441,6 +457,8 @@ func TestC01(t *testing.T) {
 	rec := ev.Get("C01")
 	rec.Rule = "world (1..4 services; 5 in thorough) x store x operation (query 80% / mutation 20%; aliases, arguments, variables, defaults, fragments, directives, abstract types, node root) x configuration (merger, id hint, plain/cached planner, service order); oracle: prune(gateway data) == prune(reference executor on the union schema), errors empty; non-trivial = the reference evaluation resolves fields owned by >=2 services; distinct by hash(world, op, variables)"
 	defer census.dump("C01")
+	mixIntrospection = true
+	defer func() { mixIntrospection = false }()
 	rapid.Check(t, func(t *rapid.T) {
 		opType := ast.Query
 		if rapid.IntRange(0, 4).Draw(t, "mutation") == 0 {
